@@ -17,6 +17,16 @@ lnwallet) plus spec/Channel/ChannelCloseTrace.tla:
       time locks and interpreter verdicts that the spec computes from the MODEL state (trimming with
       the owner's dust limit, commitment fee, who pays it, second-level fees, CSV per party/type).
 
+  (d) the same behaviours are replayed a second time from inside package contractcourt
+      (harness/contractcourt/c05_watch_test.go, other channel type per behaviour): each party has a REAL
+      chainWatcher with its own copy of the channel; the transaction that would confirm (own / counterparty's
+      current / counterparty's pending commitment) is handed to handleCommitSpend and the close summary the
+      watcher dispatches to its subscriber is what is judged (`CloseCheck` with via = 1, trace cfg
+      ChannelCloseTrace_C05W.cfg): same invariants, plus CCWatcher (the watcher classified the transaction
+      as the commitment it is and passes on that commitment's HTLC set);
+  (e) every CloseCheck also carries the party's ANCHOR resolution (inside the summary and from
+      NewAnchorResolutions() before confirmation), judged by CCAnchor for all three commitments.
+
 The helpers here are shared with C04 (c04.py).
 """
 import copy
@@ -33,7 +43,8 @@ is_reset = channel_common.is_reset
 PROFILE = {
     "C05": dict(mc=dict(quick=["mc_c05_quick_disc", "mc_c05_quick_fee"], thorough=["mc_c05_thorough"]),
                 gen=dict(MaxDisc=2, MaxAdds=4, MaxFees=3, MaxLen=100),
-                n=dict(quick=42, thorough=180), poor=dict(quick=10, thorough=40), every=dict(quick=3, thorough=1)),
+                n=dict(quick=42, thorough=180), poor=dict(quick=10, thorough=40), every=dict(quick=3, thorough=1),
+                wevery=dict(quick=3, thorough=2), wstride=dict(quick=2, thorough=1)),
     "C04": dict(mc=dict(quick=["mc_c05_quick_disc", "mc_c05_quick_fee"], thorough=["mc_c05_thorough"]),
                 gen=dict(MaxDisc=2, MaxAdds=4, MaxFees=3, MaxLen=100),
                 n=dict(quick=88, thorough=640), poor=dict(quick=15, thorough=80)),
@@ -52,7 +63,7 @@ def model_and_behaviours(ck, prop):
     return files, g
 
 
-def judge(ck, prop, recs, cfg, obs, what_exec, keyfn=None, quirk=None):
+def judge(ck, prop, recs, cfg, obs, what_exec, keyfn=None, quirk=None, tag=""):
     """Validate the Reset-batched trace; report every rejected trace as a violation. Returns True if all accepted.
 
     keyfn(badrec, hdr, inv) -> violation key for a rejected observation line.
@@ -63,18 +74,18 @@ def judge(ck, prop, recs, cfg, obs, what_exec, keyfn=None, quirk=None):
     accepted_all = True
     consts = {}
     for bi, b in enumerate(batches):
-        bp = os.path.join(ck.out, "batch_%d.ndjson" % bi)
+        bp = os.path.join(ck.out, "batch%s_%d.ndjson" % (tag, bi))
         core.write_ndjson(bp, b)
         todo = b
         while todo:
-            v = ck.validate(SPEC, "ChannelCloseTrace", cfg, bp, name="val_%d" % bi, timeout=2400,
+            v = ck.validate(SPEC, "ChannelCloseTrace", cfg, bp, name="val%s_%d" % (tag, bi), timeout=2400,
                             constants=dict(consts) or None)
             if v["ok"]:
                 break
             accepted_all = False
             line = v["line"] or 1
             a, e = core.slice_trace(todo, line, is_reset)
-            one = os.path.join(ck.out, "failing_trace.ndjson")
+            one = os.path.join(ck.out, "failing_trace%s.ndjson" % tag)
             core.write_ndjson(one, todo[a:e])
             badrec = todo[min(line - 1, len(todo) - 1)]
             hdr = todo[a]
@@ -174,6 +185,22 @@ def c05_controls(ck, recs, cfg):
 
     control(ck, recs, cfg, m_fault, "signer fault swallowed: force close succeeds with an empty summary")
 
+    def m_anchor(bad):
+        i = _pick(bad, lambda r: r["a"] == "CloseCheck" and r["x"] >= 1 and r["anc"]["present"] == 1)
+        if i is not None:
+            bad[i]["anc"]["ok"] = 0
+        return i
+
+    def m_anchor_idx(bad):
+        # the anchor resolution names the output another resolution already claims
+        i = _pick(bad, lambda r: r["a"] == "CloseCheck" and r["apre"]["present"] == 1 and r["self"]["present"] == 1)
+        if i is not None:
+            bad[i]["apre"]["idx"] = bad[i]["anc"]["idx"] = bad[i]["self"]["idx"]
+        return i
+
+    control(ck, recs, cfg, m_anchor, "anchor sweep on the counterparty's commitment rejected by the interpreter")
+    control(ck, recs, cfg, m_anchor_idx, "anchor resolution points at the party's balance output")
+
 
 def evidence(ck, recs, g, obs, rule_extra):
     hashes = set()
@@ -204,7 +231,110 @@ def evidence(ck, recs, g, obs, rule_extra):
                        "fixture capacity lowered to 1 000 000 sat so msat values fit TLC's 32-bit integers",
                        "AddHTLC constraint rejections are not judged; the behaviour ends there",
                        "bolt kvdb backend only; no aux (custom channel) leaves",
-                       "fee sufficiency of sweeps and the anchors' CPFP logic are not part of the property"]
+                       "fee sufficiency of sweeps and the anchors' CPFP fee logic (CommitFee / CommitWeight of the anchor "
+                       "resolution, budgets) are not part of the property; that the anchor resolution IS a valid spend is"]
+
+
+WSHIM = {"lnwallet/zz_verif_c04_export.go": os.path.join(core.VERIF, "harness", "lnwallet", "c04_export.go"),
+         "lnwallet/zz_verif_c05_export.go": os.path.join(core.VERIF, "harness", "lnwallet", "c05_export.go")}
+WHICH = {0: "own", 1: "remote", 2: "pending"}
+
+
+def watcher_keyfn(badrec, hdr, inv):
+    return "C05:watcher:%s:CloseCheck:%s:%s" % (inv, WHICH.get(badrec.get("x"), "?"), hdr.get("type"))
+
+
+def watcher_controls(ck, recs, cfg):
+    cc = lambda r: r["a"] == "CloseCheck" and r["err"] == ""
+
+    def m_key(bad):
+        i = _pick(bad, lambda r: cc(r) and r["x"] == 2)
+        if i is not None:
+            bad[i]["ckey"] = 1
+        return i
+
+    def m_htlc(bad):
+        # what a wrong commit point does: the descriptor of one HTLC resolution does not match the real output
+        i = _pick(bad, lambda r: cc(r) and r["x"] == 2 and r["res"])
+        if i is not None:
+            bad[i]["res"][0]["desc"], bad[i]["res"][0]["e1"] = 0, 0
+        return i
+
+    def m_set(bad):
+        i = _pick(bad, lambda r: cc(r) and r["x"] >= 1)
+        if i is not None:
+            bad[i]["nset"] += 1
+        return i
+
+    def m_anchor(bad):
+        i = _pick(bad, lambda r: cc(r) and r["x"] >= 1 and r["anc"]["present"] == 1)
+        if i is not None:
+            bad[i]["anc"]["ok"] = 0
+        return i
+
+    def m_noanchor(bad):
+        i = _pick(bad, lambda r: cc(r) and r["apre"]["present"] == 1)
+        if i is not None:
+            bad[i]["apre"] = dict(present=0, idx=-1, val=0, desc=-1, ok=-1)
+        return i
+
+    control(ck, recs, cfg, m_key, "watcher: pending commitment classified as the current one", nmax=2500)
+    control(ck, recs, cfg, m_htlc, "watcher: HTLC resolution of the pending commitment does not spend the real output", nmax=2500)
+    control(ck, recs, cfg, m_set, "watcher: one HTLC too many in the CommitSet", nmax=2500)
+    control(ck, recs, cfg, m_anchor, "anchor sweep of the counterparty's commitment rejected by the interpreter", nmax=2500)
+    control(ck, recs, cfg, m_noanchor, "no pre-confirmation anchor resolution although the anchor exists", nmax=2500)
+
+
+def watcher_part(ck, files, extra_overlay):
+    """C05 (d): close summaries obtained through contractcourt's real chainWatcher."""
+    prop = "C05"
+    every = PROFILE[prop]["wevery"][ck.tier]
+    ov = dict(WSHIM)
+    ov.update(channel_common.fixture_overlay(ck))
+    ov.update(extra_overlay or {})
+    res = ck.go_test("./contractcourt/", "^TestVerifC05Watch$", ["contractcourt/c05_watch_test.go"], name="go_watch",
+                     env={"VERIF_SCHED": os.path.dirname(files[0]), "VERIF_TYPES": ALL_TYPES,
+                          "VERIF_CLOSE_EVERY": every, "VERIF_THAW": 600,
+                          "VERIF_WATCH_STRIDE": PROFILE[prop]["wstride"][ck.tier]},
+                     timeout=3000, extra_overlay=ov)
+    trace = os.path.join(res["dir"], "trace.ndjson")
+    if not os.path.exists(trace) or os.path.getsize(trace) == 0:
+        raise Inconclusive("watcher executor produced no trace:\n" + res["out"][-3000:])
+    if res["rc"] != 0 and "panic:" in res["out"]:
+        ck.violation("C05:watcher:panic", "real contractcourt/lnwallet code panicked while the chain watcher handled a "
+                     "commitment of a spec behaviour", files={"go.out": os.path.join(res["dir"], "go.out")},
+                     text=res["out"][-4000:])
+        return
+    if res["rc"] != 0:
+        raise Inconclusive("watcher executor failed:\n" + res["out"][-3000:])
+    recs = core.read_ndjson(trace)
+    cfg = "ChannelCloseTrace_C05W.cfg"
+    nviol = len(ck.violations) + len(ck.known_hits)
+    ok = judge(ck, prop, recs, cfg, ("CloseCheck",), "C05 (chain watcher)", keyfn=watcher_keyfn, tag="w")
+    ndiv = res["out"].count("VERIF-DIVERGED ")
+    if ndiv and ok and len(ck.violations) + len(ck.known_hits) == nviol:
+        raise Inconclusive("%d behaviours could not be replayed to the end by the watcher executor, yet every "
+                           "recorded step conforms" % ndiv)
+    cc = [r for r in recs if r["a"] == "CloseCheck"]
+    ck.cov["evaluations"] += sum(1 for r in recs if not is_reset(r))
+    ck.cov["traces_validated_against_impl"] += sum(1 for r in recs if is_reset(r))
+    ck.cov["watcher_close_checks"] = dict(
+        rule="close summaries dispatched by a real chainWatcher (handleCommitSpend) per party, every %d-th step and "
+             "whenever a pending remote commitment exists; every %d-th behaviour" % (every, PROFILE[prop]["wstride"][ck.tier]),
+        total=len(cc), own=sum(1 for r in cc if r["x"] == 0), remote=sum(1 for r in cc if r["x"] == 1),
+        pending=sum(1 for r in cc if r["x"] == 2), htlc_resolutions=sum(len(r["res"]) for r in cc),
+        pending_with_htlc_resolutions=sum(1 for r in cc if r["x"] == 2 and r["res"]),
+        counterparty_tx_taken_from_the_counterparty=sum(1 for r in cc if r["x"] >= 1 and r["commit"] == 1),
+        anchors_swept=sum(1 for r in cc if r["anc"]["present"] == 1),
+        no_anchor_resolution=sum(1 for r in cc if r["anc"]["present"] == 0 and r["apre"]["present"] == 0),
+        types=sorted({r.get("type") for r in recs if is_reset(r)}))
+    big = [r for r in cc if r["x"] == 2 and r["res"]]
+    if big:
+        r = big[len(big) // 2]
+        ck.cov["samples"].append(dict(watcher_close_check={k: r[k] for k in (
+            "p", "x", "h", "nout", "nin", "commit", "claim", "self", "anc", "apre", "ckey", "nset")}))
+    if ok and len(ck.violations) + len(ck.known_hits) == nviol:
+        watcher_controls(ck, recs, cfg)
 
 
 def run(ck, extra_overlay=None):
@@ -241,6 +371,12 @@ def run(ck, extra_overlay=None):
         pending=sum(1 for r in cc if r["x"] == 2), htlc_resolutions=sum(len(r["res"]) for r in cc),
         own_on_live_object_mid_dance_or_at_end=sum(1 for r in cc if r.get("live") == 1),
         own_balance_output_trimmed=sum(1 for r in cc if r["self"]["present"] == 0),
+        anchor_resolutions=dict(
+            own=sum(1 for r in cc if r["x"] == 0 and r["anc"]["present"] == 1),
+            remote=sum(1 for r in cc if r["x"] == 1 and r["anc"]["present"] == 1),
+            pending=sum(1 for r in cc if r["x"] == 2 and r["anc"]["present"] == 1),
+            pre_confirmation=sum(1 for r in cc if r["apre"]["present"] == 1),
+            interpreter_runs=sum((r["anc"]["ok"] != -1) + (r["apre"]["ok"] != -1) for r in cc)),
         script_executions=sum(sum(1 for k in ("e1", "e1lo", "cltv", "agg", "e2", "e2lo", "e2cl") if x[k] != -1)
                               for r in cc for x in r["res"]) + sum(
             sum(1 for k in ("ok", "lo", "cl") if r["self"][k] != -1) + (1 if r["commit"] != -1 and r["x"] == 0 else 0)
@@ -267,3 +403,10 @@ def run(ck, extra_overlay=None):
                                       first_resolution=r["res"][0]))
     if ok and not ck.violations:
         c05_controls(ck, recs, cfg)
+    try:
+        watcher_part(ck, files, extra_overlay)
+    except Inconclusive as e:
+        if not ck.violations:
+            raise
+        # what part (b)/(c) found stands; the watcher part could not be decided on this tree
+        ck.notes.append("chain-watcher part inconclusive after violations of the lnwallet part: %s" % str(e)[:500])
